@@ -53,6 +53,7 @@ class C06(Prop):
     id = 'C06'
     k2_mask = {('node', 'pop'), ('arr', 'created'), ('arr', 'accepted'), ('top', 'exit_n'), ('top', 'exit_ids'), ('rec', 'type'), ('rec', 'qa'), ('rec', '*')}      # the slice of the engine state / records this property reads (DESIGN 7, table of slices)
     k2_frames = 40
+    k2_invs2 = {'blk2', 'wfx2'}         # the stage-2 T2 invariants (Inv/AllRun2.invs2_b) this property answers for on real snapshots
     k2_invs = {'wfx', 'cap'}          # the T2 invariants (Inv/AllRun.invs_b) this property answers for on real snapshots
     num = 6
     regions = {'quick': [('core', 120), ('block', 160), ('routers', 60), ('renege', 60), ('sched_block', 50), ('dyn', 30),
